@@ -9,7 +9,11 @@ fn src_space(m: u32, es: u32) -> Space {
     if m <= lim {
         Space::all(m)
     } else {
-        Space::list32(alphabet(m, es, true), format!("A({},{},rich)", m, es))
+        let mut l = alphabet(m, es, true);
+        l.extend(vpcore::alpha::cut_tail_alphabet(m, es, 3));
+        l.sort();
+        l.dedup();
+        Space::list32(l, format!("A({},{},rich) + every scale x cut position x every 3-bit tail below the cut", m, es))
     }
 }
 
@@ -57,7 +61,7 @@ macro_rules! for_n {
 }
 macro_rules! for_m {
     ($v:ident; $($m:literal),*) => {$(
-        for_n!($v, $m; 2, 3, 4, 5, 7, 8, 9, 12, 15, 16, 17, 20, 24, 28, 30, 31, 32);
+        for_n!($v, $m; 2, 3, 4, 5, 6, 7, 8, 9, 10, 11, 12, 13, 14, 15, 16, 17, 18, 19, 20, 21, 22, 23, 24, 25, 26, 27, 28, 29, 30, 31, 32);
     )*};
 }
 
